@@ -135,6 +135,7 @@ def _shard(ctx, shard, nshards):
 
 
 def run(ctx):
+    native.setup()       # translate + compile once, before the shard processes fork
     ctx.shards(_shard, 16, 16)
     return RULE, 'exploration', [
         'Cython semantics of parsing.pyx are emulated by the pyxlite translator; out-of-range rule indices and '
